@@ -362,6 +362,18 @@ pub fn run(a: &Args, rep: &mut Report) {
         }
         let (e, _) = if r.chance(1, 3) { (s.wrapping_add(r.below(0x4000)).wrapping_sub(0x2000), "near") } else { pick_addr(&mut r) };
         let e = if gen::is_canonical(e) { e } else { gen::sign_extend48(e) };
+        // distances of exactly usize::MAX (+-1) steps: the last one that still has an upper bound. Only representable
+        // where usize is narrower than the 48-bit address space (32-bit targets); never taken on x86-64.
+        let edge = if r.chance(1, 8) { Some((usize::MAX as u128) + r.below(3) as u128 - 1) } else { None };
+        let far = |from: u64, unit: u64| -> Option<u64> {
+            let t = pos(from & !(unit - 1)) + edge? * unit as u128;
+            if t < SPACE {
+                Some(addr(t))
+            } else {
+                None
+            }
+        };
+        let e = far(s, 1).unwrap_or(e);
         let dist = if s >> 47 == 0 { (1u64 << 47) - s } else { 0u64.wrapping_sub(s) };
         let (cnt, cc) = gen::count(&mut r, dist);
         let _ = cs;
@@ -379,6 +391,7 @@ pub fn run(a: &Args, rep: &mut Report) {
             6 => dist / unit + 1,
             _ => cnt / unit,
         };
+        let e = far(s, unit).unwrap_or(e);
         match which {
             0 => check_page::<Size4KiB>(rep, s, e, pcnt, "4K", cc),
             1 => check_page::<Size2MiB>(rep, s, e, pcnt, "2M", cc),
